@@ -18,6 +18,7 @@ func runC01(r *fw.Run, p *fw.Program) {
 	c01Clamp(r, p)
 	c01EOF(r, p)
 	c01Ahead(r, p)
+	c01ReadAt(r, p)
 	c01Err(r, p)
 	c01Pad(r, p)
 	c01Cursor(r, p)
@@ -896,6 +897,40 @@ func c01Ahead(r *fw.Run, p *fw.Program) {
 		env := fw.NewPolyEnv(fn)
 		env.Pure["aheadreadseeker.min64"] = true
 		rfs := methodCalls(fn, "ReadFull")
+		// the wrapped reader is consumed only by the refill: any other read of r.rs moves it away from
+		// cacheOffset+cacheUsed without the cache window being updated (a bypass "fast path")
+		if len(rfs) == 1 {
+			other, otherPos := "", ""
+			fw.EachInstr(fn, func(ins ssa.Instruction) {
+				ld, ok := ins.(*ssa.UnOp)
+				if !ok || ld.Op != token.MUL || ld.Referrers() == nil {
+					return
+				}
+				fa, ok := ld.X.(*ssa.FieldAddr)
+				if !ok || fieldNameOf(fa.X.Type(), fa.Field) != "rs" {
+					return
+				}
+				for _, rf := range *ld.Referrers() {
+					ci, ok := rf.(ssa.CallInstruction)
+					if !ok || ci == ssa.CallInstruction(rfs[0]) {
+						continue
+					}
+					name := ""
+					if ci.Common().IsInvoke() && ci.Common().Value == ssa.Value(ld) {
+						name = ci.Common().Method.Name()
+					} else if cal := ci.Common().StaticCallee(); cal != nil {
+						name = cal.String()
+					}
+					if name != "" && name != "Seek" && other == "" {
+						other, otherPos = name, p.Rel(ci.Pos())
+					}
+				}
+			})
+			if otherPos == "" {
+				otherPos = p.Rel(fn.Pos())
+			}
+			ru.Check(other == "", "Read:single-reader", otherPos, "the wrapped reader is read only by the refill", "Read also consumes the wrapped reader through "+other+" without describing the bytes in cacheOffset/cacheUsed: the reader no longer sits at the end of the cached window and the next miss after a seek into the window continues from the wrong place")
+		}
 		if len(rfs) != 1 {
 			ru.Undecided("Read:refill", p.Rel(fn.Pos()), "expected one io.ReadFull refill")
 		} else {
@@ -1163,4 +1198,64 @@ func hasRealRef(v ssa.Value) bool {
 		return true
 	}
 	return false
+}
+
+// c01ReadAt: IOBitReadSeeker.ReadBitsAt is a ReaderAt over a shared io.ReadSeeker (clones and the
+// cursor-based ReadBits use the same rs): every read of rs in it is preceded on all paths by an
+// absolute seek of rs (whence io.SeekStart) in the same call. A remembered position ("skip the seek
+// when sequential") is stale as soon as another holder of rs has read or seeked.
+func c01ReadAt(r *fw.Run, p *fw.Program) {
+	ru := r.Rule("C01.readat", "IOBitReadSeeker.ReadBitsAt does not depend on where the shared byte reader happens to be: each read of rs is dominated by an rs.Seek(.., io.SeekStart) of the same call (position-independent ReaderAt; a cached position goes stale when a clone or the cursor reader moves rs)", 1)
+	fn := c01Fn(ru, p, "(*pkg/bitio.IOBitReadSeeker).ReadBitsAt")
+	if fn == nil {
+		return
+	}
+	isRS := func(v ssa.Value) bool {
+		ld, ok := v.(*ssa.UnOp)
+		if !ok || ld.Op != token.MUL {
+			return false
+		}
+		fa, ok := ld.X.(*ssa.FieldAddr)
+		return ok && fieldNameOf(fa.X.Type(), fa.Field) == "rs"
+	}
+	var seeks, reads []ssa.CallInstruction
+	for _, c := range fw.CallsIn(fn) {
+		cc := c.Common()
+		if cc.IsInvoke() && isRS(cc.Value) {
+			switch cc.Method.Name() {
+			case "Seek":
+				if k, ok := cc.Args[1].(*ssa.Const); ok && k.Value != nil && k.Int64() == 0 {
+					seeks = append(seeks, c)
+				}
+			case "Read":
+				reads = append(reads, c)
+			}
+			continue
+		}
+		for _, a := range cc.Args {
+			x := a
+			if mi, ok := x.(*ssa.MakeInterface); ok {
+				x = mi.X
+			}
+			if ct, ok := x.(*ssa.ChangeInterface); ok {
+				x = ct.X
+			}
+			if isRS(x) {
+				reads = append(reads, c)
+			}
+		}
+	}
+	if len(reads) == 0 {
+		ru.Undecided("ReadBitsAt:reads", p.Rel(fn.Pos()), "no read of the wrapped reader found")
+		return
+	}
+	for i, rd := range reads {
+		ok := false
+		for _, sk := range seeks {
+			if precedesOnAllPaths(sk, rd) {
+				ok = true
+			}
+		}
+		ru.Check(ok, fmt.Sprintf("ReadBitsAt:read#%d:positioned", i+1), p.Rel(rd.Pos()), "read of rs preceded by an absolute seek on every path", "a read of the shared byte reader is not preceded on every path by rs.Seek(.., io.SeekStart): the bytes come from wherever another reader of the same rs left it")
+	}
 }
